@@ -91,10 +91,10 @@ class Engine:
         r, i = z3.Int(fresh_name('r')), z3.Int(fresh_name('i'))
         if key.startswith('f:'):
             e = z3.Select(base, r)
-            st.pc.append(z3.ForAll([r], z3.And(0 <= e, e < bound), patterns=[e]))
+            st.pc.append(z3.ForAll([r], z3.Implies(r < bound, z3.And(0 <= e, e < bound)), patterns=[e]))
         elif key == 'el:ref':
             e = z3.Select(z3.Select(base, r), i)
-            st.pc.append(z3.ForAll([r, i], z3.And(0 <= e, e < bound), patterns=[e]))
+            st.pc.append(z3.ForAll([r, i], z3.Implies(r < bound, z3.And(0 <= e, e < bound)), patterns=[e]))
 
     def assume_valid_ref(self, st, v, optional=False):
         if is_ref_kind(v.k):
@@ -574,7 +574,8 @@ class Engine:
                 if is_ref_kind(fk):
                     self.ref_map_axiom(st, key)
                     if st.ghost.get('qdepth', 0) == 0:
-                        st.assume(z3.And(v.t >= 0, v.t < st.heap.bound(key)))
+                        b = st.heap.bound(key)
+                        st.assume(z3.And(v.t >= 0, v.t < st.heap.alloc, z3.Implies(base.t < b, v.t < b)))
                 return v
             # property getter?
             if sch is not None:
